@@ -185,7 +185,7 @@ func vh_C10_manager_roundtrip() {
 }
 
 // Clear: error iff the stored session could not be removed; the presented ticket's key is what is cleared
-// verif: unwind=8 strlen=8 also=C13,C09,C18 steps=2000000 tunwind=24 tconcretize=24
+// verif: unwind=8 strlen=8 also=C13,C09,C18,C12 steps=2000000 tunwind=24 tconcretize=24
 func vh_C11_manager_clear() {
 	kv := &vKV{reliable: true}
 	opts := vOpts()
